@@ -57,7 +57,7 @@ func NewEngine(repo, verif string, patterns []string) (*Engine, error) {
 	if len(pkgs) > 0 {
 		eng.fset = pkgs[0].Fset
 	}
-	prog, _ := ssautil.AllPackages(pkgs, ssa.BuilderMode(0))
+	prog, _ := ssautil.AllPackages(pkgs, ssa.GlobalDebug)
 	prog.Build()
 	eng.prog = prog
 	for _, p := range prog.AllPackages() {
@@ -170,6 +170,9 @@ func (eng *Engine) collectEvents() {
 		}
 		for _, cs := range f.Calls {
 			for _, c := range cs.Asserts {
+				walk(c.E)
+			}
+			for _, c := range cs.AssertsB {
 				walk(c.E)
 			}
 			for _, g := range cs.Ghost {
